@@ -13,6 +13,8 @@
 
 #include <phosg/Process.hh>
 
+#include <fcntl.h>
+
 #include "trace.hh"
 
 using namespace std;
@@ -25,6 +27,7 @@ static string g_sys;            // token sequence
 static int g_pipe_n = 0;
 static int g_role[3][2];        // [pipe index][0 read end, 1 write end]
 static int g_delay_wait_ms = 0, g_delay_poll_ms = 0, g_delay_read_ms = 0, g_first_wait_ms = 0;
+static bool g_big_pipes = false;  // enlarge the three pipes to 1 MiB (F_SETPIPE_SZ): more than one read block can be left behind
 static bool g_log = false;
 static int g_nwait = 0;
 
@@ -48,6 +51,7 @@ ssize_t __real_write(int, const void*, size_t);
 int __real_close(int);
 int __wrap_pipe(int* fds) {
   int r = __real_pipe(fds);
+  if (g_log && r == 0 && g_big_pipes) fcntl(fds[1], F_SETPIPE_SZ, 1 << 20);
   if (g_log && r == 0 && g_pipe_n < 3) {
     g_role[g_pipe_n][0] = fds[0];
     g_role[g_pipe_n][1] = fds[1];
@@ -143,6 +147,8 @@ static void run_scenario(const Scenario& sc, const string& child) {
   if (sc.delay[0] == 'p') g_delay_poll_ms = atoi(sc.delay.c_str() + 1);
   if (sc.delay[0] == 'r') g_delay_read_ms = atoi(sc.delay.c_str() + 1);
   if (sc.delay[0] == 'f') g_first_wait_ms = atoi(sc.delay.c_str() + 1);
+  g_big_pipes = sc.delay[0] == 'F';  // F<ms>: as f<ms>, with 1 MiB pipes
+  if (sc.delay[0] == 'F') g_first_wait_ms = atoi(sc.delay.c_str() + 1);
   string payload = sc.payload > 0 ? payload_bytes(sc.payload) : string();
   int fds_before = count_fds();
   g_sys.clear();
@@ -286,6 +292,14 @@ int main(int argc, char** argv) {
         if (pl != -1 && pg.first != "closein" && pg.first != "noread" && err_volume <= 40000)
           all.push_back({"communicate", pg.second, pl < 0 ? 0 : pl, false, (d == "w15" ? 20000000 : 0), d});
       }
+  // enlarged pipes: the child can leave several read blocks (128 KiB each) behind when it exits before the parent looks
+  for (auto& d : vector<string>{"F150", "F400"}) {
+    all.push_back({"run_process", P{{"w1", 400000}, {"w2", 300000}, {"x", 0}}, -1, false, 0, d});
+    all.push_back({"run_process", P{{"w1", 131073}, {"x", 5}}, 0, false, 0, d});
+    all.push_back({"run_process", P{{"w2", 262145}, {"w1", 1000000}, {"x", 0}}, 10, true, 0, d});
+    all.push_back({"communicate", P{{"w1", 400000}, {"w2", 100}, {"x", 0}}, 0, false, 0, d});
+    all.push_back({"communicate", P{{"rall", 0}, {"w1", 700000}, {"x", 0}}, 200000, false, 0, d});
+  }
   // timeouts: a child that outlives the deadline is ended
   all.push_back({"run_process", P{{"w1", 10}, {"s", 5000}, {"x", 0}}, -1, false, 300000, "none"});
   all.push_back({"run_process", P{{"w1", 10}, {"s", 5000}, {"x", 0}}, -1, true, 300000, "none"});
